@@ -326,6 +326,14 @@ func genAbiBodies(g *h.G) {
 		}
 		g.Counters["abi_table_entries:"+kind] = len(t.Entries)
 		emitDec := func(tab, env string, modelled bool, c *boc.Cell) {
+			// the table the model gets is the list of layouts registered for the opcode THE CELL CARRIES: a damaged
+			// variant whose first 32 bits happen to be another registered opcode (0xe4737472 with its top bit
+			// flipped is 0x64737472) is dispatched by the Go code through ITS table (AUDIT3: latent false alarm)
+			if c.BitSize() >= 32 {
+				c.ResetCounters()
+				op64, _ := c.PickUint(32)
+				tab, env, modelled = abiTableText(kind, byOp[uint32(op64)])
+			}
 			if modelled {
 				g.Emit("abi.dec", kind, tab, env, tlbx.CellText(c))
 				g.Count("abi_dec_compared:" + kind)
